@@ -202,6 +202,7 @@ type hist struct {
 	addrOfL []int
 	peerOfL []int
 	rlinks  map[int]*transport_quic.Link // remote end of session k (by local link id)
+	rAccept map[int]bool                 // the remote end's AcceptStream has returned an error (the session is over for the peer)
 	raw     []rawEv
 	// arrivals at the gates (parked goroutines) and their release channels
 	estGate, lostGate, clostGate map[int]chan struct{}
@@ -401,7 +402,7 @@ func (e *engine) newHist(gen string) *hist {
 	}
 	h := &hist{e: e, gen: gen, ctx: ctx, cancel: cancel, tb: tb,
 		remote: map[int]*transport_quic.Transport{}, peerNo: map[peer.ID]int{}, peerID: map[int]peer.ID{},
-		idOf: map[*transport_quic.Link]int{}, addrNo: map[string]int{}, rlinks: map[int]*transport_quic.Link{},
+		idOf: map[*transport_quic.Link]int{}, addrNo: map[string]int{}, rlinks: map[int]*transport_quic.Link{}, rAccept: map[int]bool{},
 		estGate: map[int]chan struct{}{}, lostGate: map[int]chan struct{}{}, clostGate: map[int]chan struct{}{},
 		estDone: map[int]bool{}, clostDone: map[int]bool{}, lostEv: map[int]bool{}, closedEv: map[int]bool{},
 		relOf: map[int]bool{}, killed: map[int]bool{}, estDelivered: map[int]bool{}, lateReal: map[int]bool{}}
@@ -524,6 +525,20 @@ func (h *hist) session(a, p int, dial bool) {
 		h.fail("HandleSession did not pass the session gate exactly once")
 	} else {
 		h.rlinks[before] = r.l
+		// what Close means for the peer: its AcceptStream (blocked on the session) fails
+		go func(id int, rl *transport_quic.Link) {
+			for {
+				strm, _, err := rl.AcceptStream()
+				if err != nil {
+					break
+				}
+				_ = strm.Close()
+			}
+			h.mu.Lock()
+			h.rAccept[id] = true
+			h.cond.Broadcast()
+			h.mu.Unlock()
+		}(before, r.l)
 	}
 	h.mu.Unlock()
 	h.sync()
@@ -895,6 +910,30 @@ func (h *hist) compare(final bool) {
 				if cur, ok := tbl[h.addrOfL[id]]; !ok || cur != id {
 					mon = fmt.Sprintf("link %d is open but is not the address table's entry for its address %d (history: %s)", id, h.addrOfL[id], strings.Join(h.steps, "; "))
 				}
+			}
+		}
+	}
+	if mon == "" {
+		// what Close does: a closed link's context is cancelled and the session is over for the remote end
+		// (its blocked AcceptStream returns an error) — waited for, bounded: the close travels over the pipe
+		dl := time.Now().Add(h.e.patience() / 2)
+		for id := range h.links {
+			if !closed[id] {
+				continue
+			}
+			if h.links[id].GetContext().Err() == nil {
+				mon = fmt.Sprintf("link %d was closed (closedOnce body ran) but its context is not cancelled (history: %s)", id, strings.Join(h.steps, "; "))
+				break
+			}
+			if h.rlinks[id] == nil {
+				continue
+			}
+			for !h.rAccept[id] && time.Now().Before(dl) {
+				h.waitLocked(dl)
+			}
+			if !h.rAccept[id] {
+				mon = fmt.Sprintf("link %d was closed but the remote end's AcceptStream is still blocked: the session was not closed (history: %s)", id, strings.Join(h.steps, "; "))
+				break
 			}
 		}
 	}
